@@ -1270,7 +1270,7 @@ func (e *Engine) Refinements(pi *PkgInfo, key string, ict *Contract, only string
 		}
 		if mct == nil {
 			// implementations without a contract are not (yet) claimed: listed, not failed
-			out = append(out, &FuncResult{Name: name, Pkg: ipi.Name, Trusted: "NOT UNDER CONTRACT: implementation " + funcKey(mfn) + " has no contract; SInv excludes this dynamic type", Serves: ict.Serves})
+			out = append(out, &FuncResult{Name: name, Pkg: ipi.Name, Trusted: "NOT UNDER CONTRACT: implementation " + funcKey(mfn) + " has no contract of its own: where the interface invariant admits this dynamic type the interface contract is ASSUMED for it", Serves: ict.Serves})
 			continue
 		}
 		if !e.invCovers(pi, n) {
